@@ -465,6 +465,11 @@ impl Ctx {
                 self.c.as_mut().unwrap().set_compression_level_raw(num(a[1]) as u8);
                 format!("flags={}", self.c.as_ref().unwrap().flags())
             }
+            "csetfmt" => {
+                // csetfmt <fmt> <level>: CompressorOxide::set_format_and_level
+                self.c.as_mut().unwrap().set_format_and_level(format(num(a[1])), num(a[2]) as u8);
+                format!("flags={}", self.c.as_ref().unwrap().flags())
+            }
             "ccall" => {
                 // ccall <in> <outlen> <flush>
                 let inp = self.bytes(a[1]);
